@@ -646,6 +646,22 @@ func (vc *FuncVC) trCall(e *env, n *ECall) Term {
 				vc.eng.needFun(vc, "disp!overrides", []string{"Slice", "Int"}, "Bool")
 				return T("Bool", fmt.Sprintf("(disp!overrides %s %d)", args[0].S, vc.ss.typeTag(sig)))
 			}
+		case "domof", "valsof": // domof(m) / valsof(m): the key set / the key->value function of map m in the current state
+			m := args[0]
+			if m.GoT != nil {
+				if _, ok := m.GoT.Underlying().(*types.Map); ok {
+					dk, vk, ds, vs := vc.mapKeys(m.GoT)
+					if f.Name == "domof" {
+						d := vc.get(e.st(), dk, ds)
+						_, dinner := splitArraySort(ds)
+						return app(dinner, "select", d, m)
+					}
+					vv := vc.get(e.st(), vk, vs)
+					_, vinner := splitArraySort(vs)
+					return app(vinner, "select", vv, m)
+				}
+			}
+			return e.fail("%s() on non-map", f.Name)
 		case "arrof": // arrof(s): the backing array of a slice (to state that two slices do not share one)
 			if args[0].Sort != "Slice" {
 				return e.fail("arrof needs a slice")
